@@ -87,7 +87,7 @@ Fresh(l, cfg, prev) ==
    cid |-> cfg.client_id, kaAdv |-> cfg.ka, K |-> 0,
    reqs |-> << >>, hmap |-> << >>, recn |-> 0,
    owed |-> << >>, aw |-> 0, sids |-> {},
-   unres |-> {}, dcids |-> {}, pe |-> "", pio |-> "", c10off |-> FALSE, dcan |-> FALSE, taint |-> 0, connectLen |-> 0, d9b |-> FALSE,
+   unres |-> {}, dcids |-> {}, dcconn |-> FALSE, pe |-> "", pio |-> "", c10off |-> FALSE, dcan |-> FALSE, taint |-> 0, connectLen |-> 0, d9b |-> FALSE,
    lastDone |-> 0, afterPing |-> FALSE, pingAt |-> -1, pingDoneAt |-> -1, pingOut |-> FALSE, overslept |-> TRUE, wake |-> -1,
    dead |-> FALSE, ioDead |-> << 0, 0, 0 >>, lastio |-> << 0, 0, 0 >>,
    sum |-> EmptySum, prev |-> prev, mark |-> 0,
@@ -279,7 +279,8 @@ OutRequest(h0, d, pkt) ==
 
 OutAck(h0, d) ==
   LET h == Tick(h0, "C04") IN
-  IF h.aw < Len(h.owed)
+  IF h.dcconn THEN h
+  ELSE IF h.aw < Len(h.owed)
      /\ h.owed[h.aw + 1].t = d.t /\ h.owed[h.aw + 1].id = d.id /\ h.owed[h.aw + 1].rc = d.rc
   THEN [h EXCEPT !.aw = @ + 1]
   ELSE Viol(h, "C04", "acknowledgement not owed, out of order, or with the wrong reason code")
@@ -339,7 +340,11 @@ OnOut(h, pkt) ==
       h0 == [Tick(Tick2(h, "C01", "C09"), "C14") EXCEPT !.wn = @ + 1, !.lastout = (pkt[1] \div 16),
                       !.sum.out = Append(@, << h.ci, ClearDup(pkt) >>),
                       !.pingOut = (pkt[1] \div 16 = PINGREQ), !.afterPing = (pkt[1] \div 16 = PINGREQ)]
-      h1a == CheckKF(h0, d0.st = "ok", "C01", "outbound packet is not a well-formed MQTT 5 client packet",
+      \* an acknowledgement that echoes identifier 0 of an irregular inbound packet is not held
+      \* against the client
+      echo0 == h.dcconn /\ (pkt[1] \div 16) \in {PUBACK, PUBREC, PUBCOMP}
+      h1a == IF echo0 /\ d0.st # "ok" THEN h0 ELSE
+             CheckKF(h0, d0.st = "ok", "C01", "outbound packet is not a well-formed MQTT 5 client packet",
                      "D3", d0.st = "badflags" /\ d0.fl = 10 /\ replayed)
       \* once the outbound stream is garbled nothing written later on this transport can be attributed
       \* to a request: the other monitors stop for the rest of this run (as for D2)
@@ -449,7 +454,10 @@ OnIn(h, pkt) ==
       h0 == [Tick(h, "C08") EXCEPT !.op.prog = TRUE, !.op.nin = @ + 1]
   IN
   IF d.st = "bad" THEN [h0 EXCEPT !.op.bad = TRUE]
-  ELSE IF d.st = "dc" THEN [h0 EXCEPT !.op.dc = TRUE]
+  \* an irregular packet no listed property constrains (empty topic, identifier 0, broken property
+  \* block, ...): whatever the client answers to it is outside the claims; acknowledgement
+  \* bookkeeping stands down for this connection
+  ELSE IF d.st = "dc" THEN [h0 EXCEPT !.op.dc = TRUE, !.dcconn = TRUE]
   ELSE IF h.op.name = "conn" THEN
        IF d.t = CONNACK THEN InConnack(h0, d)
        ELSE IF d.t = DISCONNECT THEN [h0 EXCEPT !.op.disc = TRUE]
@@ -541,7 +549,7 @@ IoOnDead(h) ==
 StepConn(h, e) ==
   [h EXCEPT !.ci = @ + 1, !.wtail = << >>, !.wn = 0, !.wdisc = FALSE, !.rtail = << >>,
             !.btail = << >>, !.ack = NoAck, !.aw = 0, !.unres = {}, !.dcan = FALSE, !.taint = 0,
-            !.dead = FALSE, !.c10off = FALSE, !.pio = "", !.pingAt = -1, !.pingOut = FALSE, !.overslept = TRUE, !.up = FALSE,
+            !.dead = FALSE, !.c10off = FALSE, !.dcconn = FALSE, !.pio = "", !.pingAt = -1, !.pingOut = FALSE, !.overslept = TRUE, !.up = FALSE,
             !.op = [name |-> "conn", l |-> h.l, prog |-> FALSE, nin |-> 0, bad |-> FALSE,
                     dc |-> FALSE, disc |-> FALSE, unexp |-> FALSE, fault |-> FALSE, eof |-> FALSE,
                     rej |-> -1, hasmsg |-> FALSE, deadcall |-> FALSE, healthy |-> e.healthy]]
@@ -675,7 +683,7 @@ RetDrive(h, e) ==
                  ELSE IF r.k = "err" /\ r.v \in {"Transport", "Disconnected"} /\ (o.fault \/ o.eof) THEN h
                  ELSE IF o.bad \/ o.dc \/ o.unexp \/ o.rej >= 0 THEN h
                  ELSE Viol(h, "C04", "a consumed inbound PUBLISH was not delivered by the call that read it")
-            ELSE Check(h, ~(r.k = "ok" /\ r.hasmsg), "C04", "a message was delivered that the broker did not send (or a duplicate)")
+            ELSE Check(h, o.dc \/ ~(r.k = "ok" /\ r.hasmsg), "C04", "a message was delivered that the broker did not send (or a duplicate)")
       \* C08: malformed input is rejected, valid input is not
       rejected == r.k = "err" /\ r.v = "InvalidPacket"
       h2 == IF o.bad /\ ~o.dc
@@ -693,7 +701,7 @@ RetDrive(h, e) ==
             ELSE h3
       \* C10: a disconnect needs a cause
       timeout == h.pingAt >= 0 /\ h.now >= h.pingAt + 5000
-      h5 == IF r.k = "err" /\ r.v = "Disconnected" /\ ~o.deadcall /\ ~o.eof /\ ~o.disc /\ ~o.fault /\ ~h.c10off
+      h5 == IF r.k = "err" /\ r.v = "Disconnected" /\ ~o.deadcall /\ ~o.eof /\ ~o.disc /\ ~o.fault /\ ~o.dc /\ ~h.c10off
             THEN Check(h4, timeout, "C10", "disconnected although no keep-alive timeout, end of stream or broker DISCONNECT occurred")
             ELSE h4
       \* C16: Ok(None) only after real wire progress
